@@ -135,6 +135,12 @@ impl<'a, 't> Gen<'a, 't> {
         let neg = allow_neg && self.t.ratio(1, 4) && self.g.want("C10_NEGATIVE_INTEGER");
         sint(v, neg)
     }
+    /// an integer literal of its own (initial values, typed literals): rendered as one token since /repo f4f0e68
+    fn signed_literal(&mut self, allow_neg: bool) -> SignedInteger {
+        let v = self.magnitude();
+        let neg = allow_neg && self.t.ratio(1, 4);
+        sint(v, neg)
+    }
     fn small_signed(&mut self) -> SignedInteger {
         let v = self.t.below(100) as u128;
         let neg = self.t.ratio(1, 5) && self.g.want("C10_NEGATIVE_INTEGER");
@@ -300,7 +306,7 @@ impl<'a, 't> Gen<'a, 't> {
             0 | 1 | 2 => {
                 let data_type = if self.t.ratio(1, 4) && self.g.want("C10_TYPED_INTEGER_LITERAL") { Some(self.t.pick(&INT_TYPES).clone()) } else { None };
                 let allow_neg = !in_expr || data_type.is_some();
-                ConstantKind::IntegerLiteral(IntegerLiteral { value: self.signed(allow_neg), data_type })
+                ConstantKind::IntegerLiteral(IntegerLiteral { value: self.signed_literal(allow_neg), data_type })
             }
             3 | 4 => {
                 let data_type = if self.t.ratio(1, 4) {
